@@ -27,3 +27,13 @@ def first_part(dotted: 'Str') -> 'Str':
 def enclosing_answer(scope: 'Ref[Documentable]', name: 'Str') -> 'Str':
     """what the enclosing scope answers for the name (its own _localNameToFullName)"""
     return scope._localNameToFullName(name)
+
+
+def cast_name(o: 'Ref[expr]') -> 'Ref[Name]':
+    """the same node seen as an ast.Name (used under isinstance(o, Name))"""
+    return o
+
+
+def cast_compare(o: 'Ref[expr]') -> 'Ref[Compare]':
+    """the same node seen as an ast.Compare (used under isinstance(o, Compare))"""
+    return o
